@@ -200,7 +200,7 @@ pub fn run() -> i32 {
     let seed = ctx.seed;
     let maxlen = ctx.tier.pick(600usize, 2100);
     let sds = seeds(seed);
-    ctx.rule = format!("positive product: {} seeds (value alphabet + RFC 8032 test seeds) x every message length 0..={} (+1023,1024,1025,4096 thorough) x 4 content classes x {{pure detached, pure combined, pre-hashed incremental}} x {{classic, SigningKeyPair, IncrementalSigner}}: bytes == libsodium, deterministic, verifies everywhere. negative single-fault enumeration on base signatures (3 seeds x lengths {{0,1,32,65}} x pure/pre-hashed): every bit of message, signature and public key; S+kL for every k with S+kL < 2^256; raw S in {{L-1,L,L+1,2^252,2^256-1}}; R x A over the complete small-order encoding table (14 x 14) x S in {{0,1,r}}; non-canonical y in [p,p+18] as R and as A; mode cross-overs (signature of the other mode over M, and over SHA-512(M) / of SHA-512(M)); combined form truncated to every length < 64; accept/reject must equal libsodium and be reject for every mutation; non-trivial = case executed in both implementations", sds.len(), maxlen);
+    ctx.rule = format!("positive product: {} seeds (value alphabet + RFC 8032 test seeds) x every message length 0..={} (+1023,1024,1025,4096 thorough) x 4 content classes x {{pure detached, pure combined, pre-hashed incremental}} x {{classic, SigningKeyPair, IncrementalSigner}}: bytes == libsodium, deterministic, verifies everywhere. negative single-fault enumeration on base signatures (3 seeds x lengths {{0,1,32,65}} x pure/pre-hashed): every bit of message, signature and public key; S+kL for every k with S+kL < 2^256; raw S in {{L-1,L,L+1,2^252,2^256-1}}; R x A over the complete small-order encoding table (14 x 14) x S in {{0,1,r}}; forgeries that satisfy the cofactorless equation under every small-order public key (R = S B - j A, k A = j A), each verified three times in a row; non-canonical y in [p,p+18] as R and as A; mode cross-overs (signature of the other mode over M, and over SHA-512(M) / of SHA-512(M)); combined form truncated to every length < 64; accept/reject must equal libsodium and be reject for every mutation; non-trivial = case executed in both implementations", sds.len(), maxlen);
     ctx.assume("libsodium 1.0.18 (strict, non-COMPAT) is the reference verifier");
     ctx.assume("reference 2: pure-Python RFC 8032 signing (pure and pre-hashed) and strict verification over a dumped sub-corpus (ref/curve_check.py), run by bin/check after this binary");
 
@@ -377,6 +377,57 @@ pub fn run() -> i32 {
                         go(format!("mixed-order-R(T#{},msg+{})", ti, j), &sg, &mm, &pk, false, st);
                     }
                 }
+            }
+        }
+        // forgeries under a small-order public key that satisfy the cofactorless equation
+        // (S B = R + k A with R = S B - j A and k A = j A): only the small-order test on A
+        // stands between them and acceptance. Each is verified several times in a row on this
+        // thread through every entry point (a memo of "the last public key" must not skip it).
+        if !ph && li < 2 {
+            let mut ident = [0u8; 32];
+            ident[0] = 1;
+            let torsion: Vec<B32> = small_order_encodings().into_iter().filter(|t| sodium::ed_add(t, t).is_some()).collect();
+            for (ti, t) in torsion.iter().enumerate() {
+                let mut mult: Vec<B32> = vec![ident];
+                for j in 1..8 {
+                    match sodium::ed_add(&mult[j - 1], t) {
+                        Some(x) => mult.push(x),
+                        None => break,
+                    }
+                }
+                if mult.len() < 8 {
+                    continue;
+                }
+                let mut found = 0;
+                for mi in 0..48u8 {
+                    let mut mm = m.clone();
+                    mm.push(mi);
+                    let mut pre = b"forge".to_vec();
+                    pre.extend_from_slice(&mm);
+                    let sc = sodium::sc_reduce64(&sodium::sha512(&pre));
+                    let Some(sb) = sodium::ed_base_noclamp(&sc) else { continue };
+                    for j in 0..8usize {
+                        let Some(r) = sodium::ed_sub(&sb, &mult[j]) else { continue };
+                        let mut hin = r.to_vec();
+                        hin.extend_from_slice(t);
+                        hin.extend_from_slice(&mm);
+                        let k = sodium::sc_reduce64(&sodium::sha512(&hin));
+                        if mult[(k[0] & 7) as usize] != mult[j] {
+                            continue;
+                        }
+                        let mut sg = [0u8; 64];
+                        sg[..32].copy_from_slice(&r);
+                        sg[32..].copy_from_slice(&sc);
+                        for rep in 0..3 {
+                            go(format!("small-order-A-forgery(T#{},msg+{},j={},rep={})", ti, mi, j, rep), &sg, &mm, t, true, st);
+                        }
+                        found += 1;
+                    }
+                    if found >= 4 {
+                        break;
+                    }
+                }
+                st.bump("small_order_forgeries_built", found);
             }
         }
         // signatures / public keys handed over in run-time-sized containers of the wrong length:
